@@ -35,11 +35,11 @@ func (h1TimeoutErr) Temporary() bool { return true }
 
 // scriptConn delivers the given fragments one per Read call, then EOF or a read timeout.
 type scriptConn struct {
-	mu      sync.Mutex
-	frags   [][]byte
-	stall   bool // after the last fragment: time out instead of EOF
-	written bytes.Buffer
-	closed  bool
+	mu             sync.Mutex
+	frags          [][]byte
+	stall          bool // after the last fragment: time out instead of EOF
+	written        bytes.Buffer
+	closed         bool
 	failWriteAfter int // <0: never; otherwise Write fails once this many bytes were written
 }
 
@@ -69,9 +69,13 @@ func (c *scriptConn) Write(p []byte) (int, error) {
 	c.written.Write(p)
 	return len(p), nil
 }
-func (c *scriptConn) Close() error                       { c.closed = true; return nil }
-func (c *scriptConn) LocalAddr() net.Addr                { return &net.TCPAddr{IP: net.IPv4(127, 0, 0, 1), Port: 8888} }
-func (c *scriptConn) RemoteAddr() net.Addr               { return &net.TCPAddr{IP: net.IPv4(127, 0, 0, 1), Port: 9999} }
+func (c *scriptConn) Close() error { c.closed = true; return nil }
+func (c *scriptConn) LocalAddr() net.Addr {
+	return &net.TCPAddr{IP: net.IPv4(127, 0, 0, 1), Port: 8888}
+}
+func (c *scriptConn) RemoteAddr() net.Addr {
+	return &net.TCPAddr{IP: net.IPv4(127, 0, 0, 1), Port: 9999}
+}
 func (c *scriptConn) SetDeadline(t time.Time) error      { return nil }
 func (c *scriptConn) SetReadDeadline(t time.Time) error  { return nil }
 func (c *scriptConn) SetWriteDeadline(t time.Time) error { return nil }
@@ -94,15 +98,20 @@ func newScriptConn(stream []byte, cuts []int, stall bool) *scriptConn {
 type dummyTransport struct{}
 
 func (dummyTransport) ListenAndServe(onData network.OnData) error { return nil }
-func (dummyTransport) Close() error                                { return nil }
-func (dummyTransport) Shutdown(ctx context.Context) error          { return nil }
+func (dummyTransport) Close() error                               { return nil }
+func (dummyTransport) Shutdown(ctx context.Context) error         { return nil }
 
 type srvCfg struct {
 	disableNorm, disableKeepalive, stream, preParse bool
-	maxBody                               int
+	maxBody                                         int
 }
 
 func newEngine(cfg srvCfg, mw ...app.HandlerFunc) *route.Engine {
+	return newEngineRoutes(cfg, nil, mw...)
+}
+
+// newEngineRoutes: like newEngine, with routes registered before the engine is initialised.
+func newEngineRoutes(cfg srvCfg, routes func(*route.Engine), mw ...app.HandlerFunc) *route.Engine {
 	opt := config.NewOptions(nil)
 	opt.TransporterNewer = func(*config.Options) network.Transporter { return dummyTransport{} }
 	opt.IdleTimeout = time.Second
@@ -117,6 +126,9 @@ func newEngine(cfg srvCfg, mw ...app.HandlerFunc) *route.Engine {
 	}
 	eng := route.NewEngine(opt)
 	eng.Use(mw...)
+	if routes != nil {
+		routes(eng)
+	}
 	if err := eng.Init(); err != nil {
 		panic(err)
 	}
@@ -252,7 +264,8 @@ func parseCuts(s string) []int {
 }
 
 // serve <flags: n=disableNorm k=disableKeepalive s=stream or -> <maxBody> <end: eof|stall> <stream> <cuts>
-//  -> S <n> {head… body ntr {k v}}  R <m> {status close body}  W <wellformed>
+//
+//	-> S <n> {head… body ntr {k v}}  R <m> {status close body}  W <wellformed>
 func opServe(a []string) []string {
 	cfg := srvCfg{disableNorm: strings.Contains(a[0], "n"), disableKeepalive: strings.Contains(a[0], "k"), stream: strings.Contains(a[0], "s"), preParse: strings.Contains(a[0], "p")}
 	cfg.maxBody, _ = strconv.Atoi(a[1])
